@@ -446,3 +446,7 @@ def replay(path):
     out = execute(chk, bindir, [it], "replay")
     print("replayed:", json.dumps(it), "->", json.dumps(out.get(0)))
     return 0
+
+
+def selftest():
+    return SJ.selftest_seeded("C09")
